@@ -471,3 +471,24 @@ Proof.
   destruct ((ds e =? lo) && (ds e <? de e)) eqn:E; [|discriminate].
   intro H. constructor; [|eapply IH, H]. apply andb_prop in E as [_ E]. unfold dlen. lia.
 Qed.
+
+Lemma fill_spec_nonempty lo l hi : (l <> [] \/ lo < hi) -> chain lo l hi -> fill_spec lo l hi <> [].
+Proof.
+  intros NE C E. pose proof (fill_spec_partition _ _ _ C) as P. rewrite E in P. cbn [partitionb] in P. injection P as P.
+  destruct NE as [NE|NE]; [|lia].
+  destruct l as [|e l]; [congruence|]. cbn [fill_spec] in E. destruct (lo <? ds e); discriminate.
+Qed.
+
+(* with a threshold, whatever the lengths of the intervals: the written tier is a partition of the span *)
+Theorem prep_tier_blanks_always minT maxT th t :
+  d_isint t = true -> chain minT (d_ents t) maxT -> (d_ents t <> [] \/ minT < maxT) -> 0 < snd th ->
+  exists t', prep_tier true minT maxT (Some th) t = Ok t' /\ partitionb minT (d_ents t') = Some maxT.
+Proof.
+  intros HI C NE Hd. unfold prep_tier. rewrite HI. cbn [andb].
+  rewrite (dsort_incr _ _ (chain_incr _ _ _ C)).
+  rewrite (fill_blanks_spec _ _ _ C NE). cbn [bind].
+  pose proof (fill_spec_partition _ _ _ C) as P.
+  pose proof (ultra_partition_always th Hd minT _ _ P (fill_spec_nonempty _ _ _ NE C)) as A.
+  eexists. split; [reflexivity|]. cbn [d_ents].
+  rewrite (dsort_incr minT); [exact A|]. eapply partition_incr; [exact A|eapply partition_DI, A].
+Qed.
